@@ -65,7 +65,7 @@ ASSUMPTIONS = [
     "conjugate-Gaussian target: only the per-particle weight identity log w = log p(x,y) - log q(x) on the seam's 2-value continuous alphabet; E[exp(lml)] = Z over continuous randomness is mathematics, not explored",
     "estimate_logpdf of SMC algorithms / Marginal cannot be called through the public entry (beartype rejects the "
     "Target / scalar argument); after reporting that, the same trees are explored with only that annotation check "
-    "bypassed (`__wrapped__`), ops named '<op>[hint-bypassed]'",
+    "bypassed (`__wrapped__`); such failures carry detail.hint_bypassed = true",
 ]
 BOUNDS = {
     "quick": dict(targets=["ab (all proposals)", "mid (prior, partial, posterior)", "cat (prior, guide)"], proposals=["prior", "guide-marginal", "guide-ref", "partial-ref", "posterior-ref", "aux-marginal"], K=[1, 2], args=1, obs="all", max_paths=4096, gaussian="K<=2, n_cont=2"),
@@ -462,8 +462,7 @@ class Runner:
         return s + (";" + extra if extra else "")
 
     def fail(self, component, op, symptom, detail, extra=None):
-        if self.bypass:
-            op = op + "[hint-bypassed]"
+        detail = dict(detail, hint_bypassed=self.bypass)
         if self.q_broken and not symptom.startswith("exception"):
             # the proposal (library Marginal) already fails its own density check: attribute there
             self.ctx.fail("Marginal.random_weighted", "as-proposal:" + op, self.kcls, symptom, detail)
@@ -488,9 +487,9 @@ class Runner:
             ctx.ev((ident, op, "exception"), nontrivial=True)
             ctx.note("exceptions")
             if _is_hint(e):
-                self.ctx.fail(blame(e, component), op + ("[hint-bypassed]" if self.bypass else ""), "args=non-tuple", f"exception:{type(e).__name__}", dict(ident, msg=_plain(str(e))[:300]))
+                self.ctx.fail(blame(e, component), op, "args=non-tuple", f"exception:{type(e).__name__}", dict(ident, msg=_plain(str(e))[:300], hint_bypassed=self.bypass))
                 return "hint"
-            self.ctx.fail(blame(e, component), op + ("[hint-bypassed]" if self.bypass else ""), self.icls(), f"exception:{type(e).__name__}", dict(ident, msg=_plain(str(e))[:300]))
+            self.ctx.fail(blame(e, component), op, self.icls(), f"exception:{type(e).__name__}", dict(ident, msg=_plain(str(e))[:300], hint_bypassed=self.bypass))
             return None
         ctx.note("trees")
         ctx.note("paths", len(paths))
